@@ -376,6 +376,19 @@ Theorem C19_json_marshal_order_independent :
 Proof. exact json_manifest_perm. Qed.
 Print Assumptions C19_json_marshal_order_independent.
 
+(* For strings the json round trip is a theorem about the modelled encoder: reading back (json_unesc,
+   the inverse escapes of encoding/json) what json.Marshal wrote gives exactly the UTF-8 coercion of
+   the string -- the string itself when it is valid UTF-8 -- and clean strings never collide. *)
+Theorem C19_json_string_roundtrip :
+  forall s, json_unesc (json_esc s) = Some (utf8_san s).
+Proof. exact json_string_roundtrip. Qed.
+Print Assumptions C19_json_string_roundtrip.
+
+Theorem C19_json_string_injective_on_valid_utf8 :
+  forall s t, utf8_san s = s -> utf8_san t = t -> json_esc s = json_esc t -> s = t.
+Proof. exact json_esc_injective_clean. Qed.
+Print Assumptions C19_json_string_injective_on_valid_utf8.
+
 (* ... so Pack with the real marshalling is independent of the order of the manifest annotations. *)
 Theorem C19_annotation_order_independent_json :
   forall (H : str -> str), H empty_json = empty_json_digest ->
